@@ -334,3 +334,20 @@ class Check:
             return 1
         log("%s: ok (%s; states=%d traces=%d evaluations=%d) %.1fs" % (self.pid, self.tier, self.states, self.traces, self.evaluations, wall))
         return 0
+
+
+def run_lace(args, stdin=b"", cwd=None, timeout=20, env_extra=None):
+    """Run the real `lace` binary. Returns (exit code, stdout bytes, stderr bytes); code -1 = timeout, <0 = signal."""
+    env = dict(os.environ)
+    env["NO_COLOR"] = "1"
+    env.update(env_extra or {})
+    try:
+        r = subprocess.run([LACE_BIN] + [str(a) for a in args], input=stdin, stdout=subprocess.PIPE, stderr=subprocess.PIPE,
+                           cwd=cwd or WORK, timeout=timeout, env=env)
+        return r.returncode, r.stdout, r.stderr
+    except subprocess.TimeoutExpired:
+        return -1, b"", b"timeout"
+
+
+def chars(s):
+    return list(s)
